@@ -19,6 +19,15 @@ NOTE = ('Trusted: CrossHair byte-code interpreter and its str/int/list/dict/re m
 
 # id -> (level text, design ref)
 CLAIMED = {
+    'C08': ('Def/reference programs generated from selectors as test-case text, parsed by the real instruction parsers and default actor '
+            'and validated by the real parse_atc_and_validate_symbols / validate_symbol_usages with the builtins predefined: accept iff an '
+            'independent def/reference interpreter accepts (order, duplicates, builtins, 13 value types x 31 definition forms x 22 '
+            'reference contexts, transitive through chains), rejects are VALIDATION_ERROR with nothing executed; visibility at execution '
+            'time through the real executor; substitution with SYMBOLIC string / list values through the real parsers.', '4/C08'),
+    'C11': ('_expand_vars on every value up to length 5/6 over {$,{,},A,_,x} with a symbolic value of A against a regex-free reference; '
+            'one env / timeout instruction executed in a symbolic settings state; histories of k <= 2/3 cd / env / timeout instructions '
+            'in every phase placement through the real MainProgram with probe processes recorded by a subprocess stand-in (env=, timeout=, '
+            'cwd) against a reference state machine; symbolic timeout literals and initial environment values.', '4/C11'),
     'C12': ('Real parse_path with the configuration objects of 12 real path arguments x 11 relativities x 15 file-name shapes; chains of '
             'def path / def string (depth <= 2 / 3) through the real def instruction and validate_symbol_usages; whole program (--keep) '
             'for file / dir / copy destinations in every phase with effects compared on disk and an unchanged home directory on rejection; '
